@@ -429,8 +429,15 @@ def rule_b(ctx: Context, R: Reporter, bmap: FuncInfo):
         R.check("C16.b", "the working copy changes only through designated-coordinate stores", True, bmap, bmap.node, key="whole-array-write")
     rets = [n for n in cfg.stmt_nodes() if n.kind == "stmt" and isinstance(n.stmt, ast.Return)]
     for rn in rets:
-        ok = isinstance(rn.stmt.value, ast.Name) and rn.stmt.value.id == uparam and any(cfg.dominates(c.id, rn.id) for c in copies)
-        R.check("C16.b", "the mapped copy is returned", ok, bmap, rn.stmt, msg=f"{bmap.short}: returns `{unparse(rn.stmt.value)}`", key="return-copy")
+        rv = rn.stmt.value
+        ok = isinstance(rv, ast.Name) and rv.id == uparam and any(cfg.dominates(c.id, rn.id) for c in copies)
+        # a view of the working copy restored to the input's shape is the same thing
+        if not ok and isinstance(rv, ast.Call) and isinstance(rv.func, ast.Attribute) and rv.func.attr == "reshape" and rv.args and norm_text(rv.args[0]) in (f"{inparam}.shape", f"np.shape({inparam})"):
+            ok = True
+        extra = ""
+        if isinstance(rv, ast.Call) and dotted(rv.func).split(".")[-1] == "squeeze" and not any(k.arg == "axis" for k in rv.keywords) and len(rv.args) < 2:
+            extra = ": an axis-less squeeze drops *every* length-1 axis, so a batch of one walker or a one-parameter problem comes back with a different rank than it went in"
+        R.check("C16.b", "the mapped copy is returned (in the shape of the input)", ok, bmap, rn.stmt, msg=f"{bmap.short}: returns `{unparse(rv)}`{extra}", key="return-copy")
     # each fold loop runs exactly when its list is given
     from ..util import conds_holding_at as _cha3
 
@@ -566,8 +573,157 @@ def rule_c(ctx: Context, R: Reporter, pred: FuncInfo):
                     f"as strict ones and a given list is ignored", key=f"designated-guard:{uses}")
 
 
+# ------------------------------------------------------------------ C16.e
+VALUE_PRESERVING = {"numpy.asarray", "numpy.array", "numpy.atleast_1d", "numpy.unique", "numpy.sort", "numpy.ravel", "builtins.list", "builtins.tuple", "builtins.sorted", "builtins.set",
+                    "builtins.frozenset", "numpy.asanyarray", "numpy.copy"}
+VALUE_PRESERVING_METHODS = {"ravel", "astype", "flatten", "tolist", "copy", "reshape"}
+
+
+def rule_e(ctx: Context, R: Reporter, bmap: FuncInfo, pred: FuncInfo):
+    """C16.e  the designated index sets reach the boundary helpers as the user gave them: tracing the periodic /
+    reflective arguments of every library call of the two helpers back to the public constructor, the
+    value passes only through parameter passing, attribute stores and conversions that keep the set of
+    indices (asarray / list / unique / astype ...).  A helper on the way may map its argument to None only
+    under a test that the argument is None or empty; any other rewriting (a mask interpretation, a
+    filter, a truthiness test of the values) changes which coordinates are folded."""
+    from ..provenance import Origin, Tracer
+    from ..util import conds_holding_at, is_none_test
+
+    problems: List[Tuple[FuncInfo, ast.AST, str, str]] = []
+
+    def _emptiness_fact(a, p_, names=None) -> bool:
+        nt = is_none_test(a)
+        if nt is not None and nt[1] == p_:
+            return True
+        ta = norm_text(a)
+        if isinstance(a, ast.Compare) and len(a.ops) == 1 and const_value(a.comparators[0]) == 0 and (ta.startswith("len(") or ".size" in ta) and \
+                ((isinstance(a.ops[0], ast.Eq) and p_) or (isinstance(a.ops[0], (ast.NotEq, ast.Gt)) and not p_)):
+            return True
+        if isinstance(a, ast.Call) and dotted(a.func) == "len" and not p_:
+            return True
+        if isinstance(a, ast.Name) and not p_ and (names is None or a.id in names):
+            return True
+        return False
+
+    class IndexTracer(Tracer):
+        _stack: List[Tuple[FuncInfo, ast.Call, FuncInfo]] = []
+
+        def _param_origins(self, fi, pname, chain, depth, seen):
+            # context sensitivity for helpers entered from a specific call site
+            if self._stack and self._stack[-1][0] is fi:
+                (_, call, caller) = self._stack[-1]
+                params = list(fi.params)
+                offset = 1 if (fi.cls is not None and not fi.is_staticmethod and params and params[0] in ("self", "cls")) else 0
+                idx = params.index(pname) - offset if pname in params else None
+                arg = call_arg(call, idx, pname) if idx is not None else None
+                if arg is not None:
+                    saved = self._stack.pop()
+                    try:
+                        return self.origins(caller, arg, flow_of(caller.node).node_containing(call), chain, depth + 1, seen)
+                    finally:
+                        self._stack.append(saved)
+            return Tracer._param_origins(self, fi, pname, chain, depth, seen)
+
+        def _origins(self, fi, e, at, chain, depth, seen):
+            if isinstance(e, ast.Constant) and e.value is None and at is not None:
+                fl = flow_of(fi.node)
+                facts = []
+                for (tt, pol) in conds_holding_at(fl.cfg, at):
+                    facts += split_cond(tt, pol)
+                bad = [(a, p_) for (a, p_) in facts if not _emptiness_fact(a, p_) and is_none_test(a) is None]
+                if bad:
+                    problems.append((fi, e, f"{fi.short} replaces the index list by None under {[(unparse(a)[:30], p_) for (a, p_) in bad]} (not a test that the list is None or empty): "
+                                            f"a valid list such as [0] loses its boundary condition", f"list-dropped:{fi.short}"))
+            if isinstance(e, ast.Call):
+                name = self.ctx.res.external_name(fi, e) or ""
+                if name in VALUE_PRESERVING and e.args:
+                    return self.origins(fi, e.args[0], at, chain, depth + 1, seen)
+                if isinstance(e.func, ast.Attribute) and e.func.attr in VALUE_PRESERVING_METHODS and not name.startswith(("numpy.", "builtins.")):
+                    return self.origins(fi, e.func.value, at, chain, depth + 1, seen)
+                tgts = [t for t in self.ctx.res.call_targets(fi, e) if isinstance(t, FuncInfo)]
+                if tgts:
+                    out = []
+                    for t in tgts:
+                        out += self._through_helper(fi, e, t, chain, depth, seen)
+                    return out
+                problems.append((fi, e, f"`{unparse(e)[:60]}` rewrites the index list", f"rewrite:{fi.short}:{norm_text(e.func)[:30]}"))
+                return [Origin("call", name or unparse(e.func)[:40], fi, e, chain)]
+            if isinstance(e, (ast.ListComp, ast.GeneratorExp, ast.SetComp)):
+                filt = any(g.ifs for g in e.generators)
+                identity = len(e.generators) == 1 and isinstance(e.generators[0].target, ast.Name) and not filt and (
+                    norm_text(e.elt) == e.generators[0].target.id or (isinstance(e.elt, ast.Call) and dotted(e.elt.func) == "int" and e.elt.args and norm_text(e.elt.args[0]) == e.generators[0].target.id))
+                if identity:
+                    return self.origins(fi, e.generators[0].iter, at, chain, depth + 1, seen)
+                problems.append((fi, e, f"`{unparse(e)[:60]}` builds a different index list (filter / positions instead of the given values)", f"rewrite:{fi.short}:comprehension"))
+                return [Origin("call", "comprehension", fi, e, chain)]
+            if isinstance(e, ast.BinOp):
+                problems.append((fi, e, f"`{unparse(e)[:60]}` computes new indices", f"rewrite:{fi.short}:arith"))
+                return [Origin("call", "arithmetic", fi, e, chain)]
+            return Tracer._origins(self, fi, e, at, chain, depth, seen)
+
+        def _through_helper(self, fi, call, t, chain, depth, seen):
+            out = []
+            fl = flow_of(t.node)
+            params = [p_ for p_ in t.params if p_ not in ("self", "cls")]
+            self._stack.append((t, call, fi))
+            try:
+                return self._through_helper2(fi, call, t, chain, depth, seen, fl, params)
+            finally:
+                self._stack.pop()
+
+        def _through_helper2(self, fi, call, t, chain, depth, seen, fl, params):
+            out = []
+            for nd in fl.cfg.stmt_nodes():
+                if nd.kind != "stmt" or not isinstance(nd.stmt, ast.Return):
+                    continue
+                v = nd.stmt.value
+                if v is None or (isinstance(v, ast.Constant) and v.value is None):
+                    # None may be returned only where the argument is None / empty
+                    facts = []
+                    for (tt, pol) in conds_holding_at(fl.cfg, nd):
+                        facts += split_cond(tt, pol)
+                    okn = any(_emptiness_fact(a, p_, params) for (a, p_) in facts) and all(_emptiness_fact(a, p_) or is_none_test(a) is not None for (a, p_) in facts)
+                    if not okn:
+                        problems.append((t, nd.stmt, f"{t.short} maps a given index list to None under {[(unparse(a)[:30], p_) for (a, p_) in facts]} (not a test that the list is None or empty): "
+                                                     f"a valid list such as [0] loses its boundary condition", f"helper-drops-list:{t.short}"))
+                    continue
+                out += self.origins(t, v, nd, chain + (f"{t.short}()",), depth + 1, seen)
+            return out
+
+    T_ = IndexTracer(ctx)
+    n = 0
+    for fi in ctx.prog.functions.values():
+        if fi in (bmap, pred):
+            continue
+        for (call, tg) in ctx.cg.sites.get(fi.qualname, []):
+            if not any(t is bmap or t is pred for t in tg):
+                continue
+            at = flow_of(fi.node).node_containing(call)
+            for pos, pname in ((1, "periodic"), (2, "reflective")):
+                arg = call_arg(call, pos, pname)
+                if arg is None:
+                    continue
+                n += 1
+                before = len(problems)
+                origs = T_.origins(fi, arg, at)
+                lits = [o for o in origs if o.kind == "literal"]
+                for o in lits:
+                    problems.append((o.func or fi, o.node or call, f"a literal `{o.detail}` reaches the `{pname}` argument", f"literal:{pname}"))
+                # name-crossing along the chain: the value handed in as `periodic` must originate from the public `periodic`
+                users = [o for o in origs if o.kind == "user"]
+                crossed = [o for o in users if ("periodic" in o.detail or "reflective" in o.detail) and pname not in o.detail]
+                for o in crossed:
+                    problems.append((fi, call, f"the `{pname}` argument originates from {o.detail}", f"crossed:{pname}"))
+                new = problems[before:]
+                R.check("C16.e", f"the `{pname}` index set reaches `{unparse(call.func)}` unaltered", not new, fi, call,
+                        msg=f"{fi.short}: the `{pname}` argument of `{unparse(call)[:50]}` is not the user's index list: " + "; ".join(sorted({w for (_, _, w, _) in new}))[:400],
+                        key=f"index-plumbing:{fi.short}:{pname}:" + ",".join(sorted({k for (_, _, _, k) in new}))[:80])
+    R.floor("C16.e", "index-list arguments of boundary-helper calls", n, 4)
+
+
 def run(ctx: Context, R: Reporter):
     bmap, pred = bounds_helpers(ctx)
+    R.guard(rule_e, ctx, R, bmap, pred)
     R.guard(rule_a, ctx, R, bmap)
     R.guard(rule_b, ctx, R, bmap)
     R.guard(rule_c, ctx, R, pred)
